@@ -255,6 +255,44 @@ def uses_shortcut(tree):
     return out
 
 
+_SCHEME_KW_SNIPPET = r"""
+import json, inspect
+from gotranx.cli.utils import add_schemes
+from gotranx.schemes import Scheme, get_scheme
+class Rec:
+    def __init__(self): self.calls = []
+    def scheme(self, f, **kw):
+        self.calls.append((getattr(f, "__name__", "?"), kw)); return ""
+out = []
+for s in Scheme:
+    r = Rec()
+    add_schemes(r, scheme=[s], delta=0.5, stiff_states=["x"])
+    f = get_scheme(s.value)
+    accepts = sorted(p for p in inspect.signature(f).parameters if p in ("delta", "stiff_states"))
+    passed = sorted(r.calls[0][1]) if len(r.calls) == 1 else ["<%d calls>" % len(r.calls)]
+    want = {"delta": 0.5, "stiff_states": ["x"]}
+    unchanged = len(r.calls) == 1 and all(r.calls[0][1][k] == want.get(k) for k in r.calls[0][1])
+    out.append([s.value, ",".join(passed), ",".join(accepts), "unchanged" if unchanged else "changed"])
+print(json.dumps(out))
+"""
+
+
+def scheme_kwargs():
+    """which options `cli.utils.add_schemes` hands to `codegen.scheme` for each member of `Scheme`
+    (observed by calling that pure function with a recording stub in a subprocess), next to the
+    options the resolved scheme function accepts"""
+    import json
+    import subprocess
+    import sys
+    env = dict(os.environ)
+    env["PYTHONPATH"] = str(REPO / "src")
+    env["PYTHONWARNINGS"] = "ignore"
+    p = subprocess.run([sys.executable, "-c", _SCHEME_KW_SNIPPET], env=env, capture_output=True, text=True, timeout=120)
+    if p.returncode != 0:
+        raise RuntimeError(p.stderr.strip().splitlines()[-1] if p.stderr.strip() else "add_schemes probe failed")
+    return json.loads(p.stdout.strip().splitlines()[-1])
+
+
 def run():
     """returns [(item, ok, detail)]; writes Params.lean (only if it changed)"""
     results = []
@@ -358,6 +396,13 @@ def run():
         item(f"main_forward_{lang}", (lambda mod=mod: main_forwarding(parse(SRC / "cli" / mod))),
              (lambda v, lang=lang: f"def mainForward_{lang} : List (String × String) := {lpairs(v)}"),
              f"def mainForward_{lang} : List (String × String) := []")
+
+    item("scheme_kwargs", scheme_kwargs,
+         lambda v: ("def schemeKwargsPassed : List (String × String) := " + lpairs([(a, b) for a, b, _, _ in v]) +
+                    "\ndef schemeKwargsAccepted : List (String × String) := " + lpairs([(a, c) for a, _, c, _ in v]) +
+                    "\ndef schemeKwargsValues : List (String × String) := " + lpairs([(a, d) for a, _, _, d in v])),
+         "def schemeKwargsPassed : List (String × String) := []\ndef schemeKwargsAccepted : List (String × String) := [(\"?\", \"?\")]\n"
+         "def schemeKwargsValues : List (String × String) := []")
 
     body = ("/-! GENERATED by harness/extract.py from /repo's working tree on every run. Do not edit. -/\n"
             "namespace Gx.Generated\n\n" + "\n\n".join(items) + "\n\nend Gx.Generated\n")
